@@ -69,21 +69,21 @@ func (c *CPU6502) stzZeroPage() (uint64, bool) {
 	c.Mem.Store(c.getAddrZeroPage(), 0)
 	c.PC++
 
-	return 4, false
+	return 3, false
 }
 
 func (c *CPU6502) stzZeroPageX() (uint64, bool) {
 	c.Mem.Store(c.getAddrZeroPageX(), 0)
 	c.PC++
 
-	return 5, false
+	return 4, false
 }
 
 func (c *CPU6502) stzAbsolute() (uint64, bool) {
 	c.Mem.Store(c.getAddrAbsolute(), 0)
 	c.PC++
 
-	return 5, false
+	return 4, false
 }
 
 func (c *CPU6502) stzAbsoluteX() (uint64, bool) {
@@ -91,7 +91,7 @@ func (c *CPU6502) stzAbsoluteX() (uint64, bool) {
 	c.Mem.Store(addr, 0)
 	c.PC++
 
-	return 6, false
+	return 5, false
 }
 
 // -------- STX --------
